@@ -45,17 +45,18 @@ start = s.index("## 13. Seeded changes and which checks catch them")
 end = s.index("## Appendix A")
 intro = '''## 13. Seeded changes and which checks catch them
 
-Six rounds of independent sub-agents (one per claimed property and round)
+Seven rounds of independent sub-agents (one per claimed property and round)
 were given only the text of one property and a private scratch worktree, and
 asked for two changes each that break the property, keep the pinned suite green
-and need something specific to manifest; rounds two to six were steered
+and need something specific to manifest; rounds two to seven were steered
 towards state left by earlier calls, failures at interior points, unspecified
 behaviour of dependencies and cooperating edits, and were told which ideas were
 already taken (variants A/B = round 1, C/D = round 2, E/F = round 3,
 G/H = round 4, I/J = round 5; round 5 was pointed at shared infrastructure:
 `align.py`, `dispatch.py`, `clean.py`, `baseclass.py`, `utils/`; K/L = round 6,
 pointed at the process-wide environment, unusual-but-legal object structure and
-aliasing). Every change was confirmed by
+aliasing; M/N = round 7, pointed at sequences of different operations on the
+same objects, unusual argument types, interacting keywords and resources). Every change was confirmed by
 `tools/confirm_seeds.sh` in a scratch worktree (patch applies; no newly
 failing test; the agent's demo fails with the change and passes without) before
 it was filed under `/verif/seeded/<id>/` (`patch.diff`, `demo.py`, `notes.md`
@@ -150,6 +151,19 @@ fixed fill pattern for fresh memory and the largest expansions; C20-K to
 journeys under the retain options and column-major exponent matrices; C15-K/L
 to evaluating a cancelled-to-constant polynomial with arrays and to
 `symbols()` of a single name.
+Round seven (15 of 22 missed at first): C14-N to other values (None, False,
+"") for unknown option names; C11-M to `reshape(order=)` on column-major
+polynomials, with the numpy reference given the same memory layout; C12-M/N to
+index expressions with non-adjacent advanced indices on three axes and to
+`aspolynomial(p, names=, dtype=)`; C18-M to every spelling (case, letter order)
+of the `bindex` ordering; C19-N to the queries asked of the raw structured
+storage; C13-N to a buffered reader whose `peek` returns a few bytes; C17-M/N to
+0-d negative array axes and to operands whose names are listed in reverse
+order; C07-M (int32 coefficients never written) to pattern-filled fresh memory
+and to counting a built operand that reads back differently as a verdict in
+every check; C07-N to operands of the same storage layout over different names;
+C20-M/N to several differentiation variables in one call and to evaluation at
+2; C15-N to items taken out by basic indexing and overwritten in place.
 
 '''
 s = s[:start] + intro + table + "\n\n---------------------------------------------------------------------------\n\n" + s[end:]
